@@ -800,6 +800,14 @@ class Translator:
                 fail("use of parameters[%s] not understood: %s" % (kw, J(toks[max(0, i - 4):i + 10])))
             if seen != n_refs:
                 fail("internal: parameters references lost")
+        # wave 3: a range check that is NOT on a keyword of the parameter set (a derived quantity wrapped in its own
+        # Parameter, a local CheckedParameter, ...) would otherwise be dropped silently
+        n_checks = sum(1 for st in steps if st[1][0] == "check")
+        for word in ("checked", "satisfies", "orThrow"):
+            if sum(1 for t in toks if t == word) != n_checks:
+                fail("a %s() that is not parameters[keyword].checked().satisfies(P<T>(...)).orThrow(): %s" % (word, s[:160]))
+        if any(t in ("throwIfInvalid", "invalidate", "CheckedParameter") for t in toks):
+            fail("a check outside the parameters[keyword].checked() shape: " + s[:160])
         # helper calls of base.hpp are inlined
         for helper in env["helpers"]:
             for i, t in enumerate(toks):
@@ -1903,6 +1911,9 @@ SELF_TEST_MUTATIONS = [
      "            if (it == reference.pmap.end())\n                return;\n            if (!each.second.hasSameTypeAs(it->second))", "checkTypes early return"),
     ("stichwort/value_keeper.hpp", "        return getPolicy<T>() == policy;", "        return getPolicy<T>() == policy || true;", "type identity"),
     ("tapkee/predicates.hpp", "return (v >= lower) && (v <= upper);", "return (v > lower) && (v <= upper);", "InClosedRange operator"),
+    ("tapkee/methods/landmark_isomap.hpp", "        parameters[target_dimension].checked()",
+     "        Parameter::create(\"number of landmarks\", n_landmarks).checked().satisfies(InClosedRange<IndexType>(3, n_vectors)).orThrow();\n"
+     "        parameters[target_dimension].checked()", "check on a derived quantity"),
 ]
 
 
